@@ -94,7 +94,13 @@ static void run() {
     };
     const uint32_t kc = vp_param(4);
     t.id = KEYS[kc].id; t.src = KEYS[kc].src; t.dst = KEYS[kc].dst; t.xid = KEYS[kc].xid; t.xsrc = KEYS[kc].xsrc; t.xdst = KEYS[kc].xdst;
-    t.ttl = vp_u8(); t.tos = 0; t.proto = 0xfd; t.xb0 = vp_u8();
+    if (vp_param(5)) {
+        // the other datagram's key is symbolic: any identification / address pair that differs from D's (unordered pair, as the reassembler keys streams)
+        t.xid = vp_u16(); t.xsrc = vp_u32(); t.xdst = vp_u32();
+        bool same_pair = (t.xsrc == t.src && t.xdst == t.dst) || (t.xsrc == t.dst && t.xdst == t.src);
+        vp_assume(!(t.xid == t.id && same_pair));
+    }
+    t.ttl = vp_u8(); t.tos = vp_u8(); t.proto = vp_u8(); t.xb0 = vp_u8();
     for (uint32_t i = 0; i < MAXK; ++i) t.seen[i] = false;
     t.nseen = 0; t.completed = 0;
     IPv4Reassembler r;
